@@ -190,6 +190,24 @@ def parseRangeChar (ts : List Tok) : Res (Chr × List Tok) :=
     else .ok (⟨c, false⟩, r)
   | .fv _ :: _ => .err .fvInSet ts.length
 
+/-- The optional `-end` of a range; `ts1` are the tokens after the start character. -/
+def parseRangeEnd (ts1 : List Tok) : Res (Option Chr × List Tok) :=
+  match ts1 with
+  | .ch 45 :: .ch 93 :: _ => .ok (none, ts1)
+  | .ch 45 :: .ch 45 :: r => .err .doubleDash r.length
+  | .ch 45 :: [] => .err .rangeEnd 0
+  | .ch 45 :: r =>
+    (match parseRangeChar r with
+     | .ok (e, r') => .ok (some e, r')
+     | .err k n => .err k n
+     | .crash s => .crash s)
+  | _ => .ok (none, ts1)
+
+/-- `end is not None and ord(start.character) > ord(end.character)` -/
+def rangeReversed (start : Chr) : Option Chr → Bool
+  | some e => decide (start.code > e.code)
+  | none => false
+
 /-- The `while True` loop of `_parse_ranges_and_closing`: the ranges with the number of tokens
 that remained at their start (`cursor_by_range`), and the tokens after the closing `]`. -/
 def parseRangesLoop : Nat → List Tok → Res (List (Rng × Nat) × List Tok)
@@ -205,24 +223,11 @@ def parseRangesLoop : Nat → List Tok → Res (List (Rng × Nat) × List Tok)
       | .err k n => .err k n
       | .crash s => .crash s
       | .ok (start, ts1) =>
-        -- `end`
-        let stop : Res (Option Chr × List Tok) :=
-          match ts1 with
-          | .ch 45 :: .ch 93 :: _ => .ok (none, ts1)
-          | .ch 45 :: .ch 45 :: r => .err .doubleDash r.length
-          | .ch 45 :: [] => .err .rangeEnd 0
-          | .ch 45 :: r =>
-            (match parseRangeChar r with
-             | .ok (e, r') => .ok (some e, r')
-             | .err k n => .err k n
-             | .crash s => .crash s)
-          | _ => .ok (none, ts1)
-        match stop with
+        match parseRangeEnd ts1 with
         | .err k n => .err k n
         | .crash s => .crash s
         | .ok (e, ts2) =>
-          if (match e with | some e => decide (start.code > e.code) | none => false) then
-            .err .invalidRange ts2.length
+          if rangeReversed start e then .err .invalidRange ts2.length
           else
             match parseRangesLoop g ts2 with
             | .ok (rs, r) => .ok ((⟨start, e⟩, ts.length) :: rs, r)
@@ -254,26 +259,33 @@ def indexed : Nat → List Rng → List (Rng × Nat)
 reaches into its successor. -/
 def overlapIdx (rs : List Rng) : Option Nat := firstOverlap (sortByStart (indexed 0 rs))
 
+/-- The leading dash of a character set (a character of its own), with its position. -/
+def prefixDash (ts : List Tok) : List (Rng × Nat) :=
+  match ts with
+  | .ch 45 :: _ => [(⟨⟨45, false⟩, none⟩, ts.length)]
+  | _ => []
+
+def afterPrefixDash : List Tok → List Tok
+  | .ch 45 :: r => r
+  | ts => ts
+
+/-- The overlap check at the end of `_parse_ranges_and_closing`. -/
+def checkOverlap (all : List (Rng × Nat)) (r : List Tok) : Res (List Rng × List Tok) :=
+  match overlapIdx (all.map (·.1)) with
+  | none => .ok (all.map (·.1), r)
+  | some i =>
+    match (all.map (·.2))[i]? with
+    | some n => .err .overlap n
+    | none => .crash .overlapKeyError
+
 /-- `_parse_ranges_and_closing`; `ts` are the tokens after `[` or `[^`. -/
 def parseRanges (ts : List Tok) : Res (List Rng × List Tok) :=
-  let pre : List (Rng × Nat) := match ts with
-    | .ch 45 :: _ => [(⟨⟨45, false⟩, none⟩, ts.length)]
-    | _ => []
-  let ts' := match ts with
-    | .ch 45 :: r => r
-    | _ => ts
-  match parseRangesLoop (ts'.length + 1) ts' with
+  match parseRangesLoop ((afterPrefixDash ts).length + 1) (afterPrefixDash ts) with
   | .err k n => .err k n
   | .crash s => .crash s
   | .ok (items, r) =>
-    let all := pre ++ items
-    if all = [] then .err .emptySet r.length
-    else match overlapIdx (all.map (·.1)) with
-      | none => .ok (all.map (·.1), r)
-      | some i =>
-        match (all.map (·.2))[i]? with
-        | some n => .err .overlap n
-        | none => .crash .overlapKeyError
+    if prefixDash ts ++ items = [] then .err .emptySet r.length
+    else checkOverlap (prefixDash ts ++ items) r
 
 def astralInRange (r : Rng) : Bool :=
   r.start.code > 0x10000 || (match r.stop with | some e => decide (e.code > 0x10000) | none => false)
@@ -290,6 +302,34 @@ def mkQuant (ng : Bool) (mn : Nat) (mx : Option Nat) (r : List Tok) : Res (Optio
   if (match mx with | some m => decide (mn > m) | none => false) then .crash .quantifierMinMax
   else .ok (some ⟨ng, mn, mx⟩, r)
 
+/-- `cursor.try_literal(",")` -/
+def dropComma : List Tok → List Tok
+  | .ch 44 :: r => r
+  | r => r
+
+def hasComma : List Tok → Bool
+  | .ch 44 :: _ => true
+  | _ => false
+
+/-- The bounds between the braces of `{m,n}`: `minimum`, `found_comma`, `maximum` and the
+tokens after them (spaces and tabs are skipped around each piece). -/
+def quantBounds (r : List Tok) : Option Nat × Bool × Option Nat × List Tok :=
+  let r0 := skipWs r
+  let mn := (parseNat r0).1
+  let r1 := skipWs (parseNat r0).2
+  let comma : Bool := hasComma r1
+  let r2 := skipWs (dropComma r1)
+  let mx := (parseNat r2).1
+  let r3 := skipWs (parseNat r2).2
+  (mn, comma, mx, r3)
+
+/-- The closing `}?` or `}` of a quantifier. -/
+def closeQuant (mn0 : Nat) (mx' : Option Nat) (r3 : List Tok) : Res (Option Quant × List Tok) :=
+  match r3 with
+  | .ch 125 :: .ch 63 :: r4 => mkQuant true mn0 mx' r4
+  | .ch 125 :: r4 => mkQuant false mn0 mx' r4
+  | _ => .err .quantClosing r3.length
+
 /-- The quantifier part of the loop body of `_parse_concatenation`. -/
 def parseQuant (ts : List Tok) : Res (Option Quant × List Tok) :=
   match ts with
@@ -300,22 +340,14 @@ def parseQuant (ts : List Tok) : Res (Option Quant × List Tok) :=
   | .ch 43 :: r => mkQuant false 1 none r
   | .ch 63 :: r => mkQuant false 0 (some 1) r
   | .ch 123 :: r =>
-    let r0 := skipWs r
-    let mn := (parseNat r0).1
-    let r1 := skipWs (parseNat r0).2
-    let comma : Bool := match r1 with | .ch 44 :: _ => true | _ => false
-    let r2 := skipWs (match r1 with | .ch 44 :: r2 => r2 | _ => r1)
-    let mx := (parseNat r2).1
-    let r3 := skipWs (parseNat r2).2
-    if mn = none ∧ mx = none then .err .quantNoBounds r3.length
-    else
-      let mx' := if comma then mx else mn
-      let mn0 := mn.getD 0
-      if (match mx' with | some m => decide (mn0 > m) | none => false) then .err .quantMinMax r3.length
-      else match r3 with
-        | .ch 125 :: .ch 63 :: r4 => mkQuant true mn0 mx' r4
-        | .ch 125 :: r4 => mkQuant false mn0 mx' r4
-        | _ => .err .quantClosing r3.length
+    match quantBounds r with
+    | (mn, comma, mx, r3) =>
+      if mn = none ∧ mx = none then .err .quantNoBounds r3.length
+      else
+        let mx' := if comma then mx else mn
+        let mn0 := mn.getD 0
+        if (match mx' with | some m => decide (mn0 > m) | none => false) then .err .quantMinMax r3.length
+        else closeQuant mn0 mx' r3
   | _ => .ok (none, ts)
 
 /-! ### Terms, concatenations, unions -/
